@@ -131,6 +131,61 @@ def clause_b(facts, rep, table_ok):
                           'value set %s' % v, facts.config)
 
 
+def clause_b2(facts, rep):
+    """A second escape is only read where one is written: in handle_unicode_codepoint every call of the hex decoder
+    after the first one is dominated by BOTH tests "byte 0 is a backslash" and "byte 1 is 'u'" at the current cursor
+    (with no cursor movement in between).  `a != '\\' && b != 'u'` rejects only when both are wrong and lets "\\x" or
+    "xu" pass as an escape introducer."""
+    n = 0
+    for f in [x for x in facts.functions if x.short == 'handle_unicode_codepoint'][:1]:
+        rep.fn(f)
+        hexcalls = [(bid, i, e) for bid, i, s, e in f.walk() if e.get('k') == 'call' and e.get('cname') == 'hex_to_u32_nocheck']
+        hexcalls.sort(key=lambda t: (locline(t[2]['loc'])))
+        rep.require(len(hexcalls) >= 2, 'C05.b2: second hex decode of handle_unicode_codepoint not found')
+
+        def idx_cmp(c):
+            """(index, const) for  <cursor>[index] ==/!= const"""
+            c = strip_expect(c)
+            if c is None or c.get('k') != 'bin' or c['op'] not in ('==', '!='):
+                return None
+            for a, b in ((c['l'], c['r']), (c['r'], c['l'])):
+                k = cval(b)
+                a_ = strip(a)
+                if k is not None and a_ is not None and a_.get('k') == 'sub' and cval(a_.get('idx')) is not None:
+                    return (cval(a_['idx']), k, c['op'])
+            return None
+
+        def gen_edge(b, cond, sense):
+            r = idx_cmp(cond)
+            if r is None:
+                return []
+            ix, k, op = r
+            equal = (op == '==') == sense
+            if equal and ix == 0 and k == 92:
+                return ['bs']
+            if equal and ix == 1 and k == 117:
+                return ['u']
+            return []
+
+        def kill_stmt(st):
+            # the cursor (*src_ptr) moves
+            for y in walk(st):
+                if y.get('k') == 'bin' and y['op'] in ('+=', '-=', '=') and strip(y['l']) is not None and strip(y['l']).get('k') == 'un' and strip(y['l'])['op'] == '*':
+                    return ['bs', 'u']
+                if y.get('k') == 'bin' and y['op'] in ('+=', '-=', '=') and strip(y['l']) is not None and strip(y['l']).get('k') == 'ref' and 'uint8_t *' in (strip(y['l']).get('t') or ''):
+                    return ['bs', 'u']
+            return []
+        M = Must(f, gen_edge=gen_edge, kill_stmt=kill_stmt)
+        for bid, i, e in hexcalls[1:]:
+            st = M.at(bid, i)
+            if st is None:
+                continue
+            n += 1
+            rep.check('bs' in st and 'u' in st, 'E2.escape-introducer', f.qn, show(e)[:60], locline(e['loc']),
+                      'the second escape of a surrogate pair is decoded only behind both tests: cursor[0] == backslash and cursor[1] == u (have %s)' % sorted(st), facts.config)
+    rep.require(n >= 1, 'C05.b2: no second hex decode analysed')
+
+
 def eval_utf8(fn, cp):
     """tiny interpreter for codepoint_to_utf8(cp, c): returns (length, bytes)"""
     cpid, cid = fn.params[0]['id'], fn.params[1]['id']
@@ -539,6 +594,7 @@ def run(rep, tier):
         rep.unit(facts)
         ok = clause_a(facts, rep)
         clause_b(facts, rep, ok)
+        clause_b2(facts, rep)
         clause_c(facts, rep, tier)
         clause_d(facts, rep, nss)
         clause_e(facts, rep, nss)
